@@ -13,6 +13,7 @@ import Mfi.Lemmas.SkelL
 import Mfi.Lemmas.AccL
 import Mfi.Model.Risk
 import Mfi.Props.C09
+import Mfi.Lemmas.WorldL
 
 namespace Mfi.Props.C10
 open Mfi Mfi.Tx Mfi.Gen
@@ -537,5 +538,38 @@ example : endLiquidation ⟨5 * ONE, 10 * ONE, 10 * ONE, 9 * ONE⟩ [] 0 = .erro
 example : endLiquidation ⟨2 * ONE, 10 * ONE, 4 * ONE, 1 * ONE⟩ [] 0 = .ok (4 * ONE, 1 * ONE) := by decide
 
 end numeric
+
+section whole_instructions
+open Mfi Mfi.World Mfi.Gen Mfi.Gen.Acc
+
+/-! ### whole instructions (Mfi/Model/World.lean) -/
+
+/-- **world_receivership_admits_only_withdraw_and_repay**: while an account carries the receivership marker, a deposit or
+    a borrow is refused whoever signs; a withdrawal goes through only for collateral with a non-zero initial weight and at a
+    POSITIVE low-biased real-time price of the bank — and the initial-margin check is the only step that is left to the end
+    of the bracket -/
+theorem world_receivership_admits_only_withdraw_and_repay (c : Ctx) (hr : flag c ACCOUNT_IN_RECEIVERSHIP = true) :
+    (∀ amt up, (World.deposit c amt up).isOk = false) ∧ (∀ amt, (World.borrow c amt).isOk = false) ∧
+    (∀ amt all o, World.withdraw c amt all = .ok o →
+        c.b.weightInitZero = false ∧ ∃ p, withdrawPrice c = .ok p ∧ 0 < p) := by
+  refine ⟨?_, ?_, ?_⟩
+  · intro amt up
+    cases h : World.deposit c amt up with
+    | error e => rfl
+    | ok o => have := (deposit_ok h).flags.2; simp [hr] at this
+  · intro amt
+    cases h : World.borrow c amt with
+    | error e => rfl
+    | ok o => have := (borrow_ok h).flags.2; simp [hr] at this
+  · intro amt all o h
+    have hw := withdraw_ok h
+    obtain ⟨price, b, i, s, x', pre, hp, _⟩ := hw.core
+    refine ⟨?_, price, hp, withdrawPrice_pos hr hp⟩
+    rcases hw.checks.2.2 with h1 | h1
+    · have : flag c ACCOUNT_IN_RECEIVERSHIP = false := h1
+      simp [hr] at this
+    · exact h1
+
+end whole_instructions
 
 end Mfi.Props.C10
